@@ -110,6 +110,10 @@ pub fn eval(ctx: &Ctx) -> Report {
         reqs.push(cek::costmodel_request(&cek::default_costs(v)));
         real.push("ok".into());
         keys.push(format!("costmodel:{}", v.name));
+        // hypothesis `stepsPositive` of `cek_terminates`, decided by the model on the REAL default cost model
+        reqs.push("costpos".into());
+        real.push("pos".into());
+        keys.push(format!("costpos:{}", v.name));
         for (ti, t) in terms.iter().enumerate() {
             if !(vi == 4 || ti % 4 == vi) {
                 continue;
